@@ -165,7 +165,13 @@ Section HashLoop.
   Definition cell_eqb (a b : kcell) : bool := bytes_eqb (k_hash a) (k_hash b).
   Definition cell_pyhash (a : kcell) : N := of_be (k_hash a).
 
-  (* Cell.get_representation / calculate_representation_hash *)
+  (* Cell.get_representation / calculate_representation_hash: `data = self._hashes[-2] if len(self._hashes) > 1
+     else self._data_bytes` (a cell of non-zero level chains on the previous level's hash) *)
+  Definition repr_payload (k : kcell) : list N :=
+    match rev (k_hashes k) with
+    | _ :: prev :: _ => prev
+    | _ => data_bytes (k_bits k)
+    end.
   Definition get_representation (k : kcell) : result (list N) :=
     bind (refs_descriptor (length (k_refs k)) (is_exotic (k_ty k)) (k_mask k)) (fun d1 =>
     bind (bits_descriptor (length (k_bits k))) (fun d2 =>
@@ -173,7 +179,7 @@ Section HashLoop.
                          | [] => Err EIndex
                          | ds => to_bytes2 (last ds 0)
                          end) (k_refs k)) (fun ds =>
-    Ok ([d1; d2] ++ data_bytes (k_bits k) ++ concat ds ++ concat (map k_hash (k_refs k)))))).
+    Ok ([d1; d2] ++ repr_payload k ++ concat ds ++ concat (map k_hash (k_refs k)))))).
   Definition calculate_representation_hash (k : kcell) : result (list N) :=
     rmap H (get_representation k).
 End HashLoop.
